@@ -24,6 +24,15 @@ Clause labels (sentence of the property each one stands for):
                         untouched": the caught object IS the raised one, str unchanged
 Expected values come from the original exception object itself (kept by the oracle) and
 from Python's own isinstance/traceback machinery, never from a second gin call.
+
+History dimension (mode 'twins'): 2-3 DISTINCT exception classes that share `__module__`
+and `__qualname__` (class statement in a factory called twice, 3-argument type() called
+twice, the same source executed twice as a module reload does, a user class that calls
+itself builtins.<Name>) are raised one after the other through the SAME configurables.
+Every step is checked with all the clauses above against ITS OWN class; in addition
+`same_class` demands isinstance(caught, own class) and `same_except_clauses` runs a real
+try/except over the twin classes: the clause that catches the original must be the one
+that catches what gin delivers.  All twin instances are built without arguments.
 """
 import builtins
 import dataclasses
@@ -36,7 +45,10 @@ BOUNDS = ('every exception class in `builtins` (67, exhaustive) x up to 4 class-
           'argument variants, plus 12 user-defined shapes x 2 variants; contexts: direct '
           'augment call, 5 registration kinds x nesting depth 1-3 x 3 scopes, and reference '
           'evaluation chains of depth 1-3 x 3 scopes; quick takes a covering rotation of '
-          'the contexts per (class, variant), thorough the full product')
+          'the contexts per (class, variant), thorough the full product; plus histories '
+          '(order strings of length 2-5 over 2-3 classes) of twin classes sharing module and '
+          'qualname: 4 ways of making them x 5 bases x {augment, call depth 1-3, ref depth 1-2} '
+          'x 5 kinds x 3 scopes: 34 fixed + 60 (quick) / 600 (thorough) seeded histories')
 EXHAUSTIVE = {'quick': False, 'thorough': True}
 
 _BUILTIN = {}
@@ -236,6 +248,80 @@ def _family(orig):
   return 'plain'
 
 
+# ---- twin classes: distinct classes with equal __module__ and __qualname__ -----------
+TWIN_HOWS = ['factory', 'type_call', 'reload', 'shadow_builtin']
+TWIN_BASES = ['Exception', 'ValueError', 'KeyError', 'OSError', 'LookupError']
+_TWIN_SRC = 'class Twin(BASE):\n  tag = TAG\n'
+
+
+def _twin_factory(base, tag):
+
+  class Twin(base):
+    pass
+
+  Twin.tag = tag
+  return Twin
+
+
+def _twin_classes(how, base_name, labels):
+  """One class per label; all of them report the same __module__ and __qualname__."""
+  base, out = _BUILTIN[base_name], {}
+  for lab in labels:
+    if how == 'factory':
+      out[lab] = _twin_factory(base, lab)
+    elif how == 'type_call':
+      out[lab] = type('Twin', (base,), {'tag': lab})
+    elif how == 'reload':  # what importlib.reload does: same source, same module name, new class
+      ns = {'__name__': 'c17_reloaded', 'BASE': base, 'TAG': lab}
+      exec(_TWIN_SRC, ns)  # pylint: disable=exec-used
+      out[lab] = ns['Twin']
+    elif lab == 'A':       # shadow_builtin: the real builtin, then user classes of that name
+      out[lab] = base
+    else:
+      out[lab] = type(base_name, (Exception,), {'__module__': 'builtins', 'tag': lab})
+  first = out[labels[0]]
+  for c in out.values():
+    assert (c.__module__, c.__qualname__) == (first.__module__, first.__qualname__)
+  assert len(set(out.values())) == len(labels)
+  return out
+
+
+def _twin_ctxs():
+  yield {'mode': 'augment'}
+  for kind, depth, scope in itertools.product(KINDS, (1, 2, 3), SCOPES):
+    yield {'mode': 'call', 'kind': kind, 'depth': depth, 'scope': scope}
+  for kind, depth, scope in itertools.product(KINDS, (1, 2), SCOPES):
+    yield {'mode': 'ref', 'kind': kind, 'depth': depth, 'scope': scope}
+
+
+def _twin_fixed():
+  def t(how, base, order, **ctx):
+    return {'mode': 'twins', 'how': how, 'base': base, 'order': order, 'ctx': ctx}
+  for i, how in enumerate(TWIN_HOWS):
+    base = TWIN_BASES[i % len(TWIN_BASES)]
+    yield t(how, base, 'AB', mode='augment')
+    yield t(how, base, 'AB', mode='call', kind='configurable', depth=1, scope='')
+    yield t(how, base, 'AB', mode='call', kind=KINDS[i], depth=2, scope='zqs')
+    yield t(how, base, 'AB', mode='ref', kind='configurable', depth=1, scope='')
+    yield t(how, TWIN_BASES[(i + 1) % 5], 'ABA', mode='ref', kind=KINDS[i + 1], depth=2, scope='zqa/zqb')
+    yield t(how, TWIN_BASES[(i + 2) % 5], 'ABAB', mode='call', kind='ext_class', depth=3, scope='zqs')
+    yield t(how, TWIN_BASES[(i + 3) % 5], 'ABCA', mode='call', kind='register', depth=2, scope='')
+    yield t(how, TWIN_BASES[(i + 4) % 5], 'BA', mode='call', kind='cfg_class', depth=1, scope='zqa/zqb')
+  yield t('factory', 'OSError', 'AABBA', mode='call', kind='external', depth=2, scope='')
+  yield t('shadow_builtin', 'KeyError', 'BCA', mode='ref', kind='external', depth=1, scope='zqs')
+
+
+def _twin_seeded(rng, n):
+  ctxs = list(_twin_ctxs())
+  for _ in range(n):
+    labels = 'AB' if rng.random() < 0.7 else 'ABC'
+    order = ''
+    while len(set(order)) < 2:
+      order = ''.join(rng.choice(labels) for _ in range(rng.randint(2, 5)))
+    yield {'mode': 'twins', 'how': rng.choice(TWIN_HOWS), 'base': rng.choice(TWIN_BASES),
+           'order': order, 'ctx': dict(rng.choice(ctxs))}
+
+
 # ---- cases -------------------------------------------------------------------------
 def _contexts_all():
   yield {'mode': 'augment'}
@@ -262,6 +348,9 @@ _SHOWCASE = {'OSError': 'e3', 'SyntaxError': 's2', 'ImportError': 'kw', 'Attribu
 
 
 def cases(tier, rng):
+  # History dimension first (fixed, then seeded): twin classes sharing module and qualname.
+  yield from _twin_fixed()
+  yield from _twin_seeded(rng, 60 if tier == 'quick' else 600)
   names = list(_BUILTIN) + list(_USER)
   pairs = [(n, v) for n in names for v in _variants(n)]
   # Phase 1: instances without data (args == (); every clause but data fidelity has bite
@@ -328,40 +417,61 @@ def _build_level(kind, i, inner):
   return (lambda: gin.get_configurable(_lvl_body)()), name
 
 
-def _invoke(case, orig):
-  """Returns (caught exception or None, names of the configurables that must be named,
-  exact message suffix or None)."""
+def _prepare(case):
+  """Registers the configurables of the context.  Returns (thunk that raises _CUR['exc']
+  through them, names of the configurables that must be named, exact suffix or None)."""
   names, exact = [], None
-  _CUR['exc'] = orig
-  try:
-    if case['mode'] == 'augment':
-      exact = '\n  [augmented by the oracle]'
+  if case['mode'] == 'augment':
+    exact = '\n  [augmented by the oracle]'
+
+    def run():
       try:
         _raise_it()
       except BaseException as e:  # pylint: disable=broad-except
         utils.augment_exception_message_and_reraise(e, exact)
-    elif case['mode'] == 'call':
-      fn = None
-      for i in range(1, case['depth'] + 1):
-        fn, name = _build_level(case['kind'], i, fn)
-        names.append(name)
+
+  elif case['mode'] == 'call':
+    fn = None
+    for i in range(1, case['depth'] + 1):
+      fn, name = _build_level(case['kind'], i, fn)
+      names.append(name)
+
+    def run():
       with gin.config_scope(case['scope']):
         fn()
-    else:  # a chain of `depth` references: lvl_(i+1).x = @[scope/]c17.lvl_i(); lvl_1 raises
-      fn = None
-      for i in range(1, case['depth'] + 2):
-        fn, name = _build_level(case['kind'], i, None)
-        if i > 1:
-          sc = case['scope'] + '/' if case['scope'] else ''
-          gin.parse_config('c17.%s.x = @%sc17.%s()' % (name, sc, names[-1]))
-        names.append(name)
-      names = names[:1]  # only the configurable the exception was raised in must be named
-      fn()
+
+  else:  # a chain of `depth` references: lvl_(i+1).x = @[scope/]c17.lvl_i(); lvl_1 raises
+    run = None
+    for i in range(1, case['depth'] + 2):
+      run, name = _build_level(case['kind'], i, None)
+      if i > 1:
+        sc = case['scope'] + '/' if case['scope'] else ''
+        gin.parse_config('c17.%s.x = @%sc17.%s()' % (name, sc, names[-1]))
+      names.append(name)
+    names = names[:1]  # only the configurable the exception was raised in must be named
+  return run, names, exact
+
+
+def _run(run, orig):
+  """The exception that reaches the caller when `orig` is raised through `run` (or None)."""
+  _CUR['exc'] = orig
+  try:
+    run()
   except BaseException as e:  # pylint: disable=broad-except
-    return e, names, exact
+    return e
   finally:
     _CUR.clear()
-  return None, names, exact
+  return None
+
+
+def _invoke(case, orig):
+  """Returns (caught exception or None, names of the configurables that must be named,
+  exact message suffix or None)."""
+  try:
+    run, names, exact = _prepare(case)
+  except BaseException as e:  # pylint: disable=broad-except
+    return e, [], None
+  return _run(run, orig), names, exact
 
 
 def _tb_entries(exc):
@@ -400,12 +510,66 @@ def _same(a, b):
     return False
 
 
+def _catching_clause(exc, classes):
+  """Label of the first `except <class>` clause, tried in the order given, that catches
+  `exc` in a real try/except (None: none of them).  Adds a frame to exc.__traceback__."""
+  for lab, cls in classes:
+    try:
+      try:
+        raise exc
+      except cls:
+        return lab
+    except BaseException:  # pylint: disable=broad-except
+      continue
+  return None
+
+
 def check(case):
+  if case['mode'] == 'twins':
+    return _check_twins(case)
   orig = _make(case['exc'], case['variant'])
   before = _readable_public(orig)
   text = str(orig)
-  fam = _family(orig)
   caught, names, exact = _invoke(case, orig)
+  return _compare(case, orig, before, text, _family(orig), caught, names, exact)
+
+
+def _check_twins(case):
+  ctx, how = case['ctx'], case['how']
+  classes = _twin_classes(how, case['base'], sorted(set(case['order']) | {'A', 'B'}))
+  run, names, exact = _prepare(ctx)
+  fails, raised = [], []
+  for lab in case['order']:
+    own = classes[lab]
+    orig = own()
+    before, text = _readable_public(orig), str(orig)
+    fam = 'twin:%s' % how
+    hist = 'after_other_twin' if any(r != lab for r in raised) else 'first_of_its_name'
+    raised.append(lab)
+    caught = _run(run, orig)
+    step = _compare(ctx, orig, before, text, fam, caught, names, exact)
+    if caught is not None and isinstance(caught, Exception):
+      # "catchable by the same except clauses", with real except clauses over the twins:
+      # every rotation of the clause order must pick the same clause as for the original.
+      labs = sorted(classes)
+      for k in range(len(labs)):
+        order = [(l, classes[l]) for l in labs[k:] + labs[:k]]
+        want, got = _catching_clause(orig, order), _catching_clause(caught, order)
+        if want != got:
+          step.append({'clause': 'same_except_clauses',
+                       'expected': 'caught by `except <twin %s>`' % want,
+                       'observed': 'caught by `except <twin %s>`' % got if got else 'not caught',
+                       'signature': 'same_except_clauses fam=%s real_except_clause' % fam})
+          break
+    for f in step:  # few, stable signatures: the class that came out instead is in `observed`
+      if f['clause'] == 'same_class':
+        f['signature'] = 'same_class fam=%s not_instance_of_own_class' % fam
+      f['observed'] = {'step': '%s (%s) of %s' % (lab, hist, case['order']), 'got': f['observed']}
+    fails.extend(step)
+  return fails
+
+
+def _compare(case, orig, before, text, fam, caught, names, exact):
   fails = []
 
   def fail(clause, expected, observed, sig):
